@@ -205,15 +205,20 @@ def check_case(ctx, f, data, n, rng, mo=None, mg=None, pre="random", text=None, 
     if half and not modular:
         # the same bounds as durations: period 500 ms, a bound of k samples written k/2 seconds (F52: the explainer has to read
         # the bounds in samples, as evaluate() does)
-        text = "out = " + F.to_text(f, bound=lambda k: ("%ds" % (k // 2)) if k % 2 == 0 else ("%d.5s" % (k // 2)))
-        sampling = (500, "ms", 0.1)
-        ctx.count("bounds-as-durations")
+        if half == "double":
+            # unit-less bounds are durations in the default unit too: period 2 s, a bound of k samples written 2k
+            text = "out = " + F.to_text(f, bound=lambda k: str(2 * k))
+            sampling = (2, "s", 0.1)
+        else:
+            text = "out = " + F.to_text(f, bound=lambda k: ("%ds" % (k // 2)) if k % 2 == 0 else ("%d.5s" % (k // 2)))
+            sampling = (500, "ms", 0.1)
+        ctx.count("bounds-as-durations" + ("/unit-less" if half == "double" else ""))
     if pre == "random":
         pre = gen_data(rng, vs, rng.randint(1, 8)) if rng.random() < 0.25 else None
     if pre is not None:
         ctx.count("reused-object")
     out = evaluate_and_explain(text, vs, data, n, pre, extra, sampling)
-    rep = {"pre": pre, "extra": list(extra), "modular": modular, "half": bool(half), "spec": text, "formula": F.to_proto(f), "data": data, "n": n, "impl": out}
+    rep = {"pre": pre, "extra": list(extra), "modular": modular, "half": half, "spec": text, "formula": F.to_proto(f), "data": data, "n": n, "impl": out}
     if out[0] != "ok":
         return Violation("evaluate()/explain() raised %r: %s" % (out[1:], text), rep, stream="expl")
     r0, ex = out[1]
@@ -329,7 +334,7 @@ def explore(ctx, rng, count):
                                                                         "once", "hist", "ev", "alw"):
                 ctx.count("op:" + o)
         ctx.evaluations += 1
-        half = rng.random() < 0.15 and any(x[0] == "tb1" for x in F.subformulas(f))
+        half = (rng.choice([True, "double"]) if rng.random() < 0.2 and any(x[0] == "tb1" for x in F.subformulas(f)) else False)
         v = check_case(ctx, f, data, n, rng, mo, mg, half=half)
         if v is None:
             ctx.traces_validated += 1
@@ -502,7 +507,7 @@ def replay(ctx, obj):
     pre = {k: [float(x) for x in v_] for k, v_ in obj["pre"].items()} if obj.get("pre") else None
     mtext, extra = (obj["spec"], tuple(obj.get("extra") or ())) if obj.get("modular") else (None, ())
     v = check_case(Ctx(ctx.id, ctx.tier, ctx.seed), f, data, obj["n"], random.Random(0), pre=pre, text=mtext, extra=extra,
-                   half=bool(obj.get("half")))
+                   half=obj.get("half") or False)
     if v is None and "reassigned" in obj:
         d2 = {k: [float(x) for x in vv] for k, vv in obj["reassigned"].items()}
         text = mtext or "out = " + F.to_text(f)
